@@ -57,6 +57,7 @@ type DeclCfg struct {
 	BaseMulti    bool // base: tags also on slices and maps of integers
 	BigGroup     bool // now and then one group with more than 100 options
 	CaseLongs    bool // long names that differ only in case
+	Colliding    bool // rarely: two groups with the same name, or a group named like a command
 }
 
 var (
@@ -410,6 +411,36 @@ func genDecl(r *Rng, cfg *DeclCfg) *DeclSpec {
 	}
 	if cfg.Namespaces && cfg.Env && r.Chance(1, 4) {
 		d.EnvNSDelim = r.Pick([]string{"__", ".", "-"})
+	}
+	if cfg.Colliding && r.Chance(1, 40) {
+		// declarations the library accepts although their INI section names collide
+		var all []*GroupSpec
+		d.eachGroupSpec(func(g *GroupSpec, cp []string, own bool) {
+			if !own && g != d.Root {
+				all = append(all, g)
+			}
+		})
+		var renamed *GroupSpec
+		old := ""
+		if len(all) >= 2 && r.Bool() {
+			renamed, old = all[len(all)-1], all[len(all)-1].Name
+			renamed.Name = all[0].Name
+		} else if len(d.Groups) > 0 && len(d.Commands) > 0 {
+			n := d.Commands[0].Name
+			renamed, old = d.Groups[0], d.Groups[0].Name
+			renamed.Name = strings.ToUpper(n[:1]) + n[1:]
+		}
+		if renamed != nil {
+			// the harness identifies options by path: keep those unique
+			seen := map[string]bool{}
+			for _, oi := range optInfos(d) {
+				if seen[oi.Path] {
+					renamed.Name = old
+					break
+				}
+				seen[oi.Path] = true
+			}
+		}
 	}
 	if cfg.Descriptions {
 		d.ShortDesc = "a simulated application"
